@@ -3524,6 +3524,10 @@ static WBXMLError wbxml_encode_drmrel_content(WBXMLEncoder *encoder, WB_UTINY *b
             if ((data_len = wbxml_base64_decode(buffer, -1, &data)) < 0)
                 return WBXML_NOT_ENCODED;
 
+            /* wbxml_base64_decode() returns 0 and no result when it can't allocate it */
+            if (data == NULL)
+                return WBXML_ERROR_NOT_ENOUGH_MEMORY;
+
             /* Add WBXML_OPAQUE */
             if (!wbxml_buffer_append_char(encoder->output, WBXML_OPAQUE))
             {
@@ -3618,10 +3622,16 @@ static WBXMLError wbxml_encode_ota_nokia_icon(WBXMLEncoder *encoder, WB_UTINY *b
                 /* Decode Base64 */
                 if ((data_len = wbxml_base64_decode(buffer, -1, &data)) < 0)
                     return WBXML_NOT_ENCODED;
+
+                /* wbxml_base64_decode() returns 0 and no result when it can't allocate it */
+                if (data == NULL)
+                    return WBXML_ERROR_NOT_ENOUGH_MEMORY;
             
                 /* Encode opaque */
-                if ((ret = wbxml_encode_opaque_data(encoder, data, data_len)) != WBXML_OK)
+                if ((ret = wbxml_encode_opaque_data(encoder, data, data_len)) != WBXML_OK) {
+                    wbxml_free(data);
                     return ret;
+                }
                 
                 /* Free Data */
                 wbxml_free(data);
